@@ -130,18 +130,38 @@ func names(items []item) []string {
 	return r
 }
 
-// differs is the harness's own field-by-field comparison with the kinds TLC emitted; it only selects which executions
+// differs is the harness's own field-by-field comparison with the kinds TLC emitted, on the fields the property
+// determines (a BadString may end anywhere inside the whitespace item behind it); it only selects which executions
 // are written as traces when sampling and feeds the summary. Verdicts come from the trace specification.
 func differs(items []item, los, his []int, toks []obsTok, eof bool, pn string) bool {
-	if pn != "" || !eof || len(toks) != len(items) {
+	if pn != "" || !eof {
 		return true
 	}
-	for i, t := range toks {
-		if t.kname != items[i].K || t.lo != los[i] || t.hi != his[i] || !t.same {
+	k := 0
+	for i := 0; i < len(items); i++ {
+		if k >= len(toks) {
 			return true
 		}
+		t := toks[k]
+		k++
+		if t.kname != items[i].K || t.lo != los[i] || !t.same {
+			return true
+		}
+		if t.hi == his[i] {
+			continue
+		}
+		if items[i].K != "BadString" || i+1 >= len(items) || items[i+1].K != "Whitespace" || t.hi < his[i] || t.hi > his[i+1] {
+			return true
+		}
+		i++ // the whitespace item: swallowed entirely, or its rest is one whitespace token
+		if t.hi < his[i] {
+			if k >= len(toks) || toks[k].kname != "Whitespace" || toks[k].lo != t.hi || toks[k].hi != his[i] || !toks[k].same {
+				return true
+			}
+			k++
+		}
 	}
-	return false
+	return k != len(toks)
 }
 
 func record(w *tr.Writer, tid int, nm []string, los, his []int, input []byte, toks []obsTok, eof bool, pn string, gen tr.E) {
@@ -325,12 +345,15 @@ func Is(args []string) {
 	out := fs.String("out", "", "trace file")
 	seed := fs.Uint64("seed", 1, "seed")
 	variants := fs.Int("variants", 2, "spellings per class string")
+	longLen := fs.Int("longlen", 99, "class strings of at least this length get one spelling")
+	batch := fs.Int("batch", 20, "class strings per trace")
 	fs.Parse(args)
 	w := tr.NewWriter(*out)
 	sum := summary{Suite: "csstok", Mode: "is", IsTrue: map[string]int{}, Unused: []string{}}
 	seen := map[string]bool{}
 	idx := uint64(0)
 	tid := 0
+	inBatch := 0
 	err := tr.ReadCases(*cases, func(line int, raw []byte) {
 		var c scase
 		if err := json.Unmarshal(raw, &c); err != nil {
@@ -342,10 +365,17 @@ func Is(args []string) {
 		}
 		idx++
 		sum.Cases++
-		tid++
-		w.Begin(tid)
-		w.Ev("Open", tr.E{"mode": "is", "cls": c.Cls})
-		for v := 0; v < *variants; v++ {
+		if inBatch == 0 {
+			tid++
+			w.Begin(tid)
+			w.Ev("Open", tr.E{"mode": "is"})
+		}
+		inBatch++
+		nv := *variants
+		if len(c.Cls) >= *longLen {
+			nv = 1
+		}
+		for v := 0; v < nv; v++ {
 			var s []byte
 			for p, cl := range c.Cls {
 				r, ok := isReps[cl]
@@ -376,13 +406,20 @@ func Is(args []string) {
 					sum.Mismatches++
 				}
 			}
+			ev["cls"] = c.Cls
 			w.Ev("Is", ev)
 			if len(sum.Samples) < 2 && ev["isIdent"] == true && len(c.Cls) >= 3 {
 				sum.Samples = append(sum.Samples, map[string]interface{}{"cls": c.Cls, "arg": string(s), "IsIdent": true, "IsURLUnquoted": ev["isURL"]})
 			}
 		}
-		w.End(true)
+		if inBatch >= *batch {
+			w.End(true)
+			inBatch = 0
+		}
 	})
+	if inBatch > 0 {
+		w.End(true)
+	}
 	if err != nil {
 		fmt.Fprintln(os.Stderr, err)
 		os.Exit(2)
